@@ -19,6 +19,7 @@ var noopPrefixes = []string{
 	"github.com/rs/zerolog",
 	"github.com/prometheus/",
 	"go.uber.org/zap",
+	"github.com/spf13/",
 	"github.com/IrineSistiana/mosproxy/internal/mlog",
 	"log.", "(*log.",
 }
@@ -309,6 +310,10 @@ func init() {
 		"math/bits.Len32": bitsLen(32),
 		"math/bits.Len16": bitsLen(16),
 		"math/bits.Len8":  bitsLen(8),
+		"unique.Make": uniqueMake,
+		"hash/maphash.MakeSeed": noopIntrinsic,
+		"hash/maphash.Bytes":    maphashBytes,
+		"hash/maphash.String":   maphashBytes,
 		"runtime.KeepAlive": noopIntrinsic,
 		"runtime.Gosched":   noopIntrinsic,
 	}
@@ -552,4 +557,68 @@ func syncPoolPut(e *Engine, s *State, f *Frame, fn *ssa.Function, args []Value, 
 	}
 	s.pools[k] = append(s.pools[k], v)
 	return nil, true
+}
+
+// uniqueMake models unique.Make[T] for concrete comparable values: one canonical object per distinct value.
+func uniqueMake(e *Engine, s *State, f *Frame, fn *ssa.Function, args []Value, retIdx int, advance bool) (Value, bool) {
+	key := fn.String() + "|" + e.concreteKey(s, args[0])
+	id, ok := e.uniq[key]
+	if !ok {
+		e.nobj++
+		o := &Object{ID: e.nobj, Val: args[0], T: fn.Signature.Params().At(0).Type(), owner: -1, Label: "unique " + key}
+		id = o.ID
+		e.uniq[key] = id
+		s.heap[id] = o
+		if e.base != nil {
+			e.base.heap[id] = o
+		}
+		for _, w := range e.work {
+			w.heap[id] = o
+		}
+	}
+	return &StructV{Fields: []Value{&Pointer{Obj: id}}}, true
+}
+
+// concreteKey renders a fully concrete value; symbolic parts are an engine error.
+func (e *Engine) concreteKey(s *State, v Value) string {
+	switch x := v.(type) {
+	case *Term:
+		x = e.simp(s, x)
+		if !x.IsConst() {
+			e.errf("concreteKey: symbolic scalar")
+		}
+		return fmt.Sprint(x.Val)
+	case *StructV:
+		var ps []string
+		for _, f := range x.Fields {
+			ps = append(ps, e.concreteKey(s, f))
+		}
+		return "{" + strings.Join(ps, ",") + "}"
+	case *SliceV:
+		if str, ok := e.concreteString(x); ok {
+			return fmt.Sprintf("%q", str)
+		}
+	case *Pointer:
+		return ptrKey(x)
+	}
+	e.errf("concreteKey: unsupported %T", v)
+	return ""
+}
+
+// maphashBytes: an uninterpreted function of (length, first 8 octets); longer inputs are outside the model.
+func maphashBytes(e *Engine, s *State, f *Frame, fn *ssa.Function, args []Value, retIdx int, advance bool) (Value, bool) {
+	c := e.c
+	sl := args[1].(*SliceV)
+	n := e.upper(s, sl.Len, 1<<16)
+	if n > 8 {
+		e.errf("maphash model: input longer than 8 octets (%d)", n)
+	}
+	arr := e.arrOf(s, sl)
+	packed := c.BV(0, 64)
+	for i := uint64(0); i < n; i++ {
+		it := c.BV(i, 64)
+		b := c.Ite(c.Ult(it, sl.Len), e.baRead(arr, c.Add(sl.Off, it)), c.BV(0, 8))
+		packed = c.BvOr(packed, c.Shl(c.Zext(b, 64), c.BV(8*i, 64)))
+	}
+	return c.UF("@maphash", 64, sl.Len, packed), true
 }
